@@ -35,7 +35,7 @@ CHECKS = {
                      'the deterministic scheduler), falsy task objects, results whose shape differs from the entry carried in.',
                 note=_SCHED_NOTE + '; one wall-clock assertion (driver process exits within 60 s, expected < 1 s)',
                 technique='TLA+ spec + TLC (safety, deadlock, liveness); deterministic-scheduler exploration of the real code; trace validation'),
-    'C04': dict(engine='Runs', also=['Decide'], category='model_checking', design_ref='DESIGN.md §4 C04',
+    'C04': dict(engine='Runs', also=['Decide', 'Config'], category='model_checking', design_ref='DESIGN.md §4 C04',
                 text='Runs.tla models histories of runs (merge of persisted DONE entries, master passes with the decision function on logical '
                      'clocks, executions, write-back of every entry with an output directory) with faults between runs (fail/recover, lost file, '
                      'added task); TLC checks C04_Fresh and C04_NoNeedlessRerun over all 3-task graphs x histories of 3-4 runs. Bound to the code: '
@@ -81,7 +81,7 @@ CHECKS = {
                      'judged by TLC (DatasetArithTrace / DatasetHeapTrace).',
                 note='small rational operands; exactness not judged for non-finite or large-rational chain steps',
                 technique='TLA+ specs + TLC, replay of states and op sequences into Dataset, TLC batch trace validation'),
-    'C12': dict(engine='Render', category='model_checking', design_ref='DESIGN.md §4 C12',
+    'C12': dict(engine='Render', also=['PlotTmpl'], category='model_checking', design_ref='DESIGN.md §4 C12',
                 text='Render.tla is a relational specification of the allowed renderings (mark iff false, highlighted rows = failing shown rows, cells '
                      'read back), model-checked; every TLC-enumerated input (kind x failing pattern x shape x verbosity x representer) is rendered by '
                      'the real code, parsed back with docutils and judged by TLC (RenderTrace); TableOps.tla (slice/join/copy keep rows and masks '
@@ -96,7 +96,7 @@ CHECKS = {
                      'TLC with its counterexample replayed; random traces are walked by TLC (ObserveTrace.tla).',
                 note='1-d datasets of 4 bins; the snapshot covers verdict, recorded statistics, test parameters and dataset bytes',
                 technique='TLA+ spec + refinement check + TLC-generated op sequences replayed, TLC trace validation'),
-    'C17': dict(engine='Browser', category='model_checking', design_ref='DESIGN.md §4 C17',
+    'C17': dict(engine='Browser', also=['BrowserIndex'], category='model_checking', design_ref='DESIGN.md §4 C17',
                 text='Browser.tla specifies filter / select / merge / keys / values as a naive scan and checks an independent inverted-index '
                      'definition against it; TLC enumerates all sessions over small item lists, queries and chains, each replayed on the real Browser '
                      'under two renderings; random sessions are validated back by TLC (BrowserTrace.tla).',
@@ -178,6 +178,9 @@ ENGINES = {
     'ParseLock': dict(path='specs/ParseLock.tla', kind_free_text='parser threads sharing the pyparsing grammar: lock / re-bind / read actions (+ParseLockMC.tla, ParseLockTrace.tla); detsched.py schedules real Parser threads; run inside C10; conf_parselock.py'),
     'PyTask': dict(path='specs/PyTask.tla', kind_free_text='heap model of what a PythonTask / EvalTestTask may do to shared state (arguments, environment handed to the function, returned update) + PyTaskTrace.tla; observations only, run inside C19; conf_pytask.py'),
     'Equal': dict(path='specs/Equal.tla', kind_free_text='exact-arithmetic model of check_bins / TestEqual / TestApproxEqual / TestMetadata + EqualTrace.tla; observations only, run inside C18; conf_equal.py'),
+    'Config': dict(path='specs/Config.tla', kind_free_text='configuration objects as trees in a heap: construction, dict interface, query / set, copies, equality, round trips, layering defaults < file < task argument, path.ensure / sanitize_filename (+ConfigTrace.tla); observations only, run inside C04; conf_config.py'),
+    'BrowserIndex': dict(path='specs/BrowserIndex.tla', kind_free_text='representation-level model of eponine.browser.Index (key -> value -> id sets) refining the item list of Browser.tla: build, keep_only laws, strip, look-ups, merge, dump (+BrowserIndexTrace.tla); observations only, run inside C17; conf_browserindex.py'),
+    'PlotTmpl': dict(path='specs/PlotTmpl.tla', kind_free_text='plot templates (CurveElements / SubPlotElements / PlotTemplate) over an abstract heap with object identities: copy, join, writes, ==, fingerprint, curves_index (+PlotTmplTrace.tla); observations only, run inside C12; conf_plottmpl.py'),
     'Pipeline': dict(path='specs/Pipeline.tla', kind_free_text='`valjean run` stage by stage: arguments, job import and call, dependency closure, unique names, the two graphs, abstract scheduling, failed-tasks and environment files (+PipelineMC.tla, PipelineTrace.tla); observations only, run inside C14; conf_pipeline.py'),
     'RList': dict(path='specs/RList.tla', kind_free_text='reverse-indexed list under DepGraph (observations only, run inside C16) + RListTrace.tla; conf_rlist.py'),
     'Decide': dict(path='specs/Decide.tla', kind_free_text='decision function of the backend for one task, all inputs (serves C02, C04) + DecideTrace.tla; conf_decide.py'),
@@ -229,8 +232,8 @@ def main():
               '(spec->code) and batch trace validation (code->spec). See DESIGN.md. Every check also runs itself once more, in parallel, '
               'at the quick tier in an environment variant (python -O, valjean logger at DEBUG, another working directory; VERIF_VARIANT=0 '
               'switches this off) and fails if that run finds a violation. Extra specification modules beyond the listed properties (RList, '
-              'EnvOps, ParseLock, PyTask, Equal, Pipeline) run inside host checks and report OBSERVATION lines only (ParseLock and two clauses '
-              'of EnvOps restate C10 / C01 and can raise their violations). harness/check_seeds.sh re-applies the 84 stored seeded changes '
+              'EnvOps, ParseLock, PyTask, Equal, Pipeline, Config, BrowserIndex, PlotTmpl) run inside host checks and report OBSERVATION lines only (ParseLock and two clauses '
+              'of EnvOps restate C10 / C01 and can raise their violations). harness/check_seeds.sh re-applies the 98 stored seeded changes '
               '(seeded/) and reports CAUGHT / MISSED per seed.',
         not_applicable=[dict(property_id=p, reason='check not built yet (planned, see DESIGN.md §4)')
                         for p in ALL if p not in CHECKS])
